@@ -150,8 +150,9 @@ func (r *report) evaluate(hs []*harnessInfo, stats []*interp.HarnessStats, rb *r
 				}
 				res, err := rb.run(h.pkgDir, path, knownKeys, wd)
 				// schedule-dependent events cannot be forced natively: repeat the run
-				for rep := 0; err == nil && rep < 30 && ((f.Kind == "race" && !res.Race) ||
-					(f.Kind == "deadlock" && res.Outcome == "ok")); rep++ {
+				for rep := 0; err == nil && rep < 40 && ((f.Kind == "race" && !res.Race) ||
+					(f.Kind == "deadlock" && res.Outcome == "ok") ||
+					(h.cfg.MapOrder && f.Kind == "assert" && !(res.Outcome == "assert" && res.Label == f.Label))); rep++ {
 					res, err = rb.run(h.pkgDir, path, knownKeys, wd)
 				}
 				if err != nil {
